@@ -439,3 +439,18 @@ def midsize_multigraph(rng, lo=7, hi=9):
     for _ in range(rng.randint(1, 4)):
         a, b = sorted(rng.sample(range(n), 2)); e[(a, b)] = rng.choice([1, 2, 2, 3])
     return mk_graph(n, [(a, b, k) for (a, b), k in sorted(e.items())], rng)
+
+def cut_transfer_game(rng):
+    """two dense clusters joined by a thin cut; the divisor is a tiny effective divisor E moved across the cut by firing one side (E - L*1_A or E + L*1_A),
+    sometimes nudged by one chip: in debt, (mostly) winnable, and with fewer chips in circulation than the smallest valence of any vertex"""
+    a = rng.choice([2, 3, 3, 4]); b = rng.choice([2, 3, 3, 4]); n = a + b; km = rng.choice([1, 2, 2, 3])
+    e = [(i, j, km) for i in range(a) for j in range(i + 1, a)] + [(a + i, a + j, km) for i in range(b) for j in range(i + 1, b)]
+    e.append((a - 1, a, rng.choice([1, 1, 2])))
+    G = mk_graph(n, e, rng); M = matrix(G)
+    E = [0] * n
+    if rng.random() < 0.5: E[rng.randrange(n)] += 1
+    side = list(range(a)) if rng.random() < 0.5 else list(range(a, n))
+    sg = rng.choice([1, -1])
+    D = [E[v] - sg * sum((sum(M[v]) if v == w else -M[v][w]) for w in side) for v in range(n)]
+    if rng.random() < 0.3: D[rng.randrange(n)] += rng.choice([-1, 1])
+    return G, D
